@@ -163,6 +163,11 @@ func (r *Run) pushAlt(d Decision) {
 
 func (r *Run) checkLimits() {
 	if len(r.decs) > r.cfg.MaxDecisions {
+		if r.cfg.UnwindViolation {
+			// termination obligation: exceeding the unwinding bound is the counterexample
+			r.violation("unwind", "does not terminate within the unwinding bound", r.curFuncName(), fmt.Sprintf("more than %d decisions on one path", r.cfg.MaxDecisions), nil)
+			panic(runAbort{"unwind"})
+		}
 		r.event("UNWIND: more than %d decisions on one path (last site %s)", r.cfg.MaxDecisions, r.decs[len(r.decs)-1].Site)
 		panic(runAbort{"unwind"})
 	}
@@ -525,6 +530,9 @@ func (r *Run) violation(kind, label, site, detail string, extra *Term) {
 }
 
 func fingerprint(v Violation) string {
+	if v.Kind == "unwind" {
+		return strings.Join([]string{v.Harness, v.Kind, v.Label, "", ""}, "|")
+	}
 	return strings.Join([]string{v.Harness, v.Kind, v.Label, shortName(v.Site), msgClass(v.Detail)}, "|")
 }
 
